@@ -179,6 +179,9 @@ def checkFrame (l : Line) : Verdict :=
     match bad "second" (l.outN "e2") (l.outN "f2") with
     | some v => v
     | none =>
+      -- the ROM-resident polling loops (rl = address of a JR -2 in the last bytes of a region) are checked against the
+      -- property only: both calls returned, each within two frames
+      if l.inN "rl" != 0 then .ok true else
       match mkCore (frameProgram (l.inN "n0") (l.inN "n1") (l.inN "off" == 1)) 0x01b0 0x0013 0x00d8 0x014d with
       | none => .bad "setup"
       | some c0 =>
